@@ -37,7 +37,10 @@ CONTRACTS[(PATH, 'complete_state_seq')] = Contract(
              'forall(lambda q: implies(0 <= q and q < len(non_blanks), result[0][2 * q + 1] == non_blanks[q]))',
              'forall(lambda q: implies(0 <= q and q <= len(non_blanks), result[0][2 * q] == blank_symbol))',
              'forall(lambda q: implies(0 <= q and q < len(non_blanks), result[1][2 * q + 1] == q))',
-             'forall(lambda q: implies(0 <= q and q <= len(non_blanks), result[1][2 * q] == -1))'],
+             'forall(lambda q: implies(0 <= q and q <= len(non_blanks), result[1][2 * q] == -1))',
+             # the same, indexed by state
+             'forall(lambda s: implies(0 <= s and s < 2 * len(non_blanks) + 1, result[0][s] == (blank_symbol if s % 2 == 0 else non_blanks[s // 2])))',
+             'forall(lambda s: implies(0 <= s and s < 2 * len(non_blanks) + 1, result[1][s] == (-1 if s % 2 == 0 else s // 2)))'],
 )
 
 _S = '(2 * len(elements) + 1)'
@@ -129,13 +132,33 @@ for _k in ('initial_cost', 'final_cost', 'compute_update', 'backtrack'):
     _pub(CONTRACTS[(PATH, _k)])
 
 
+def _css_result(ex, st, env):
+    from pyvc.arrays import as_array
+    n = to_int(as_array(st, env['non_blanks']).shape[0])
+    return (fresh_array((2 * n + 1,), 'int', 'all_states'), fresh_array((2 * n + 1,), 'int', 'char_sequence'))
+
+
+def _hmm_result(ex, st, env):
+    from pyvc.arrays import as_array
+    n = to_int(as_array(st, env['elements']).shape[0])
+    return fresh_array((2 * n + 1, 2 * n + 1), 'xreal', 'A')
+
+
+CONTRACTS[(PATH, 'complete_state_seq')].result = _css_result
+CONTRACTS[(PATH, 'hmm_trans_from_string')].result = _hmm_result
+for _k in ('complete_state_seq', 'hmm_trans_from_string'):
+    _pub(CONTRACTS[(PATH, _k)])
+
+
 # ---------------------------------------------------------------------------------------------------
 # viterbi_align: the DP invariant act_cost = V(t, .) with V characterised by the Bellman conditions
 
 def viterbi_theory(ex, st):
     from pyvc.arrays import as_array
-    X = as_array(st, st.env['neg_logits'])
-    A = as_array(st, st.env['A'])
+    return bellman_theory(as_array(st, st.env['neg_logits']), as_array(st, st.env['A']))
+
+
+def bellman_theory(X, A):
     S = to_int(A.shape[0])
     Vp = z3.Function('V_inf', z3.IntSort(), z3.IntSort(), z3.BoolSort())
     Vv = z3.Function('V_val', z3.IntSort(), z3.IntSort(), z3.RealSort())
@@ -230,6 +253,7 @@ CONTRACTS[(PATH, 'viterbi_align')] = Contract(
          'stmt': 'implies(QVALID(), V(u, Q(u)) <= PCOST(u))'},
     ],
     ensures=['len(result) == ' + _TT,
+             'forall(lambda t: implies(0 <= t and t < ' + _TT + ', 0 <= result[t] and result[t] < ' + _SS + '))',
              # ends in one of the two final states, the cheaper one
              '(result[' + _TT + ' - 1] == ' + _SS + ' - 1 or result[' + _TT + ' - 1] == ' + _SS + ' - 2)',
              'V(' + _TT + ' - 1, result[' + _TT + ' - 1]) <= V(' + _TT + ' - 1, ' + _SS + ' - 1) and V(' + _TT + ' - 1, result[' + _TT + ' - 1]) <= V(' + _TT + ' - 1, ' + _SS + ' - 2)',
@@ -252,4 +276,112 @@ CONTRACTS[(PATH, 'viterbi_align')] = Contract(
         BPOK % 'kk', BPOPT % 'kk'])},
 )
 
-KEYS = [(PATH, k) for k in ('initial_cost', 'final_cost', 'complete_state_seq', 'hmm_trans_from_string', 'compute_update', 'backtrack', 'viterbi_align')]
+# ---------------------------------------------------------------------------------------------------
+# force_align: composition — the returned symbol sequence is the labelling of a minimum-cost allowed state path of the CTC
+# topology over the labels, and it collapses to the labels
+
+def _va_result(ex, st, env):
+    from pyvc.arrays import as_array
+    return fresh_array((to_int(as_array(st, env['neg_logits']).shape[0]),), 'int', 'state_path')
+
+
+CONTRACTS[(PATH, 'viterbi_align')].result = _va_result
+_pub(CONTRACTS[(PATH, 'viterbi_align')])
+
+
+def force_theory(ex, st):
+    """the Bellman specification over the EXPANDED costs X'[t, s] = neg_logprobs[t, symbol of state s] and the CTC transition
+    structure A' of the labels (0 where allowed, +inf elsewhere); NEV(t): number of collapse events (a non-blank symbol that
+    differs from its predecessor) in frames 0..t of the returned symbol sequence"""
+    from pyvc.arrays import as_array
+    NL = as_array(st, st.env['neg_logprobs'])
+    SY = as_array(st, st.env['symbols_seq'])
+    blank = to_int(st.env['blank_symbol'])
+    n = to_int(SY.shape[0])
+    S = 2 * n + 1
+
+    def cs(s_):
+        s_ = to_int(s_)
+        return z3.If(s_ % 2 == 0, blank, SY.get(s_ / 2))
+
+    def allowed(a, b):
+        a, b = to_int(a), to_int(b)
+        return z3.Or(b == a, b == a + 1, z3.And(b == a + 2, a % 2 == 1, a < S - 2, SY.get(a / 2) != SY.get(a / 2 + 1)))
+    X = ArrayVal((NL.shape[0], S), lambda t_, s_: NL.get(t_, cs(s_)), 'xreal')
+    A = ArrayVal((S, S), lambda a, b: XReal(z3.Not(allowed(a, b)), False, 0), 'xreal')
+    names, axioms = bellman_theory(X, A)
+    NEVf = z3.Function('N_collapse_events', z3.IntSort(), z3.IntSort())
+
+    def res(t_):
+        return to_int(as_array(ex_state[0], ex_state[0].env['result']).get(to_int(t_)))
+    ex_state = [st]
+
+    def event(t_):
+        t_ = to_int(t_)
+        return z3.And(res(t_) != blank, z3.Or(t_ == 0, res(t_) != res(t_ - 1)))
+
+    def nev_def(t_):
+        t_ = to_int(t_)
+        one = z3.If(event(t_), 1, 0)
+        return z3.And(z3.Implies(t_ == 0, NEVf(0) == one), z3.Implies(t_ >= 1, NEVf(t_) == NEVf(t_ - 1) + one))
+
+    def NEV(ex_, st_, t_):
+        ex_state[0] = st_
+        if ex_.pending_defs:
+            ex_.pending_defs[-1].append(nev_def(t_))
+        return NEVf(to_int(t_))
+
+    def EVENT(ex_, st_, t_):
+        ex_state[0] = st_
+        return event(t_)
+    names.update({'CS': SpecFunc(cs, 'CS'), 'NEV': NEV, 'EVENT': EVENT, 'NSTATES': S})
+    return names, axioms
+
+
+_T2 = 'neg_logprobs.shape[0]'
+_S2 = '(2 * len(symbols_seq) + 1)'
+CONTRACTS[(PATH, 'force_align')] = Contract(
+    params={'neg_logprobs': 'nd2:xreal', 'symbols_seq': 'seq:int', 'blank_symbol': 'int', 'return_seq_positions': 'const:False'},
+    theory=force_theory, inline=['expand_logits'],
+    requires=[_T2 + ' >= 1', 'len(symbols_seq) >= 1',
+              '0 <= blank_symbol and blank_symbol < neg_logprobs.shape[1]',
+              'forall(lambda q: implies(0 <= q and q < len(symbols_seq), 0 <= symbols_seq[q] and symbols_seq[q] < neg_logprobs.shape[1] and symbols_seq[q] != blank_symbol))',
+              # an alignment of finite cost exists (otherwise viterbi_align raises ValueError: proved in its own contract)
+              'not (isinf(V(' + _T2 + ' - 1, ' + _S2 + ' - 1)) and isinf(V(' + _T2 + ' - 1, ' + _S2 + ' - 2)))'],
+    ghost_at={
+        'A = hmm_trans_from_string(symbols_seq)': [
+            # the transition matrix built by the code is the CTC topology the specification is stated over
+            'assert A.shape[0] == ' + _S2 + ' and A.shape[1] == ' + _S2,
+            'assert forall(lambda a, b: implies(0 <= a and a < ' + _S2 + ' and 0 <= b and b < ' + _S2 + ', isinf(A[a, b]) == (not allowed(a, b))))'],
+        'expanded_logits = expand_logits(neg_logprobs, complete_seq)': [
+            'assert expanded_logits.shape[0] == ' + _T2 + ' and expanded_logits.shape[1] == ' + _S2,
+            'assert forall(lambda t, s: implies(0 <= t and t < ' + _T2 + ' and 0 <= s and s < ' + _S2 + ', expanded_logits[t, s] == neg_logprobs[t, CS(s)]))'],
+    },
+    lemmas=[
+        # the number of collapse events up to frame u is the number of labels the state path has entered: (state + 1) // 2
+        {'name': 'collapse-follows-the-states', 'var': 'u', 'lo': '0', 'hi': _T2 + ' - 1', 'direction': 'up',
+         'stmt': '0 <= original_align[u] and original_align[u] < ' + _S2 + ' and NEV(u) == (original_align[u] + 1) // 2'},
+    ],
+    ensures=['len(result) == ' + _T2,
+             # one symbol per frame: the symbol of the state the optimal path is in
+             'forall(lambda t: implies(0 <= t and t < ' + _T2 + ', result[t] == CS(original_align[t])))',
+             # collapses to the labels: exactly len(labels) collapse events, and the e-th event emits the e-th label
+             'NEV(' + _T2 + ' - 1) == len(symbols_seq)',
+             'forall(lambda t: implies(0 <= t and t < ' + _T2 + ' and EVENT(t), result[t] == symbols_seq[(original_align[t] - 1) // 2]))',
+             # minimum cost over all allowed state paths (hence over all alignments, which are exactly those paths)
+             'implies(QVALID() and (Q(' + _T2 + ' - 1) == ' + _S2 + ' - 1 or Q(' + _T2 + ' - 1) == ' + _S2 + ' - 2), '
+             'V(' + _T2 + ' - 1, original_align[' + _T2 + ' - 1]) <= PCOST(' + _T2 + ' - 1))'],
+)
+
+import copy as _copy
+_fa = CONTRACTS[(PATH, 'force_align')]
+_fp = _copy.copy(_fa)
+_fp.params = dict(_fa.params, return_seq_positions='const:True')
+_fp.lemmas = []
+# the variant used by align_text: per frame the index of the label the optimal state belongs to, -1 in blank states
+_fp.ensures = ['len(result) == ' + _T2,
+               'forall(lambda t: implies(0 <= t and t < ' + _T2 + ', result[t] == (-1 if original_align[t] % 2 == 0 else original_align[t] // 2)))',
+               'forall(lambda t: implies(0 <= t and t < ' + _T2 + ', -1 <= result[t] and result[t] < len(symbols_seq)))']
+CONTRACTS[(PATH, 'force_align', 'positions')] = _fp
+
+KEYS = [(PATH, k) for k in ('initial_cost', 'final_cost', 'complete_state_seq', 'hmm_trans_from_string', 'compute_update', 'backtrack', 'viterbi_align', 'force_align')] + [(PATH, 'force_align', 'positions')]
